@@ -335,6 +335,7 @@ def pub_run(ctx, tag, args, cases_tpl="PubMonitorCases.v"):
     res = {"defs": {k: parse_idx_tuples(v) for k, v in defs.items() if k.endswith("_bad")},
            "n": int(re.sub(r"\D", "", defs.get("n_observed", "0").split(":")[0]) or 0),
            "summary": {k: summ[k] for k in ("evaluations", "distinct_nontrivial", "rule", "distribution")},
+           "stats": {k: re.sub(r"\s+", " ", v.split(":")[0]).strip() for k, v in defs.items() if k.endswith("_stats")},
            "runs": summ["extra"]["runs"], "dir": cdir}
     json.dump(res, open(res_path, "w"))
     for fn in ("observed.vo", "observed.glob", "cases.vo", "cases.glob"):
@@ -360,11 +361,13 @@ def pub_property(ctx, pid, prop_file, model_files, judge, family_filter=None, ru
     found = False
     specs = run_specs or [("std", PUB_STD[ctx.tier])]
     res = None
+    stats = {}
     for tag, args in specs:
         r1 = pub_run(ctx, tag, args)
         if "error" in r1:
             res = r1
             break
+        stats[tag] = r1.get("stats", {})
         if res is None:
             res = r1
         else:  # concatenate, shifting indices
@@ -381,6 +384,7 @@ def pub_property(ctx, pid, prop_file, model_files, judge, family_filter=None, ru
     selset = set(sel)
     ctx.coverage.update({"evaluations": len(sel), "rule": res["summary"]["rule"] + "; " + judge.get("rule", ""),
                          "input_distribution": res["summary"]["distribution"], "samples": [runs[i] for i in sel[:2]]})
+    ctx.coverage["monitor_stats"] = stats
     # direct judgement of the implementation's traces
     nbad = 0
     for name in judge["monitors"]:
@@ -475,6 +479,24 @@ def check_C20(ctx):
 
 def replay_C20(ctx):
     return check_C20(ctx)
+
+
+def check_C02(ctx):
+    def classify(name, fields, run):
+        return ("C02:%s:%s" % (run["family"].split(":")[0], fields[1][:48]), "%s (faults %s): %s" % (run["family"], run["faults"], fields[1]))
+    n = "40" if ctx.tier == "quick" else "600"
+    return pub_property(ctx, "C02", "Properties/C02.v",
+                        ["Pub/SideEffect.v deliver / inboxes_from_db / resolve_actors / classify, Pub/Util.v filter_public / dedupe_iris / get_inbox, Pub/DeliverySpec.v (specification and trace judge)",
+                         "interpretation: Public is removed from the addressed ids before anything is dereferenced; an entry of a dereferenced remote collection is dereferenced whatever its IRI (the code has no second filter and the statement asks for none); an actor document without an inbox fails the delivery (documented behaviour of getInboxes)",
+                         "modelled, not verified: the HTTP transport itself (C19); goroutine-free sequential resolution as in the code"],
+                        {"monitors": ["delivery_bad"], "classify": classify,
+                         "rule": "random federation graphs (family deliver: up to 10 actors and collections, nested / cyclic collections, duplicates, both Public spellings, the sender, unreachable / garbled / unknown-type documents, any subset of stored inboxes, depth 1..4) through Send, plus every standard outbox scenario; single faults; the real trace is judged against spec_targets of the graph read off that trace"},
+                        family_filter=lambda f: f.startswith(("outbox:", "send:", "deliver:")),
+                        run_specs=[("deliver", ["-families", "deliver", "-n", n, "-faults", "single", "-maxruns", "6000"]), ("std", PUB_STD[ctx.tier])])
+
+
+def replay_C02(ctx):
+    return check_C02(ctx)
 
 
 def check_C03(ctx):
